@@ -7,7 +7,9 @@ THEOREMS = ["TLVerif.Props.C17." + t for t in ["byName_finds", "byTag_finds", "n
 
 def run(c):
     c.lean(MODULES, THEOREMS, sources=["TLVerif.Codec.Registry"])
-    model, hcodec, schemas = cc.prepare(c)
+    import os
+    from vlib.core import ROOT
+    model, hcodec, schemas = cc.prepare(c, cc.corpus(c) + [cc.Schema("annot", [os.path.join(ROOT, "schemas", "annot.tl")], tl2="*", sanity=True)])
     for sc in schemas:
         pre = [sc.desc_line()]
         names = sorted({i["tlname"] for i in sc.desc["instances"] if i["kind"] in ("struct", "union") and i.get("tlname")})
@@ -19,6 +21,7 @@ def run(c):
                 c.oracle_fail(l, "descriptor exported by the kernel has colliding registry names or tags", l)
         # the property itself on the implementation
         seen_names, seen_tags = {}, {}
+        by_name = {i["tlname"]: i for i in sc.desc["instances"] if i["kind"] in ("struct", "union") and i["natParams"] == 0 and i["topLevel"]}
         for l, a, _ in res:
             if l.startswith("codec.items") and a.startswith("ok"):
                 for t in a.split()[1:]:
@@ -34,6 +37,11 @@ def run(c):
                 p = dict(x.split("=", 1) for x in a.split(" ")[1:])
                 item = p["item"].split(":")
                 obj = p["obj"].split(":")
+                want = by_name.get(item[0])
+                if want is not None:
+                    flags = (str(want.get("isFunction", False)).lower(), str(not want["originTL2"]).lower(), str(want["hasTL2"]).lower(), str(want.get("annotations", 0) % 64))
+                    if tuple(item[2:6]) != flags:
+                        c.oracle_fail(l, "registry flags (function, TL1, TL2, annotations) of %s are %s, the schema says %s" % (item[0], ":".join(item[2:6]), ":".join(flags)), l)
                 if item[1] != "0":
                     if obj[0] != item[0] or obj[1] != item[1]:
                         c.oracle_fail(l, "object created by name reports %s, registry item says %s" % (p["obj"], p["item"]), l)
